@@ -3,6 +3,7 @@ import glob
 import itertools
 import os
 import random
+import re
 
 import vlib
 from vlib import Case
@@ -342,6 +343,50 @@ class VarGen:
                     self.flatten(vv, self.next_vid, emitted, out)
 
 
+def fix_listeners(op):
+    """a listener's body starts with what Listener::Archive writes itself: at least the section-flag byte (0 = no lists)"""
+    m = re.match(r"^([BNU]) 2 (\d+) \[ (.*)\]( @.*)?$", op)
+    if not m or m.group(3).startswith("P u8 "):
+        return op
+    body = m.group(3).strip()
+    return "%s 2 %s [ P u8 0%s ]%s" % (m.group(1), m.group(2), " ; " + body if body else "", m.group(4) or "")
+
+
+def listener_sections(rng, lis_items, name, next_vid):
+    """Listener::Archive's sections for the listeners of a case: one registration name per case (so that every set has at most
+    one entry and its layout does not depend on dictionary indices); returns {id: (prefix leaves, annotation)}"""
+    notify = {}
+    for a in lis_items:
+        if rng.random() < 0.6:
+            notify[a] = rng.sample(lis_items, rng.randrange(1, min(3, len(lis_items)) + 1))
+    waitfor = {}
+    for a in lis_items:                       # the harness registers in this order
+        for b in notify.get(a, []):
+            waitfor.setdefault(b, []).append(a)
+    out = {}
+    hx = hexs(name)
+    for a in lis_items:
+        var = None
+        if rng.random() < 0.6:
+            next_vid[0] += 1
+            k = rng.choice("ifcsk")
+            val = {"i": "i:%x" % rng.randrange(1 << 64), "f": "f:%x" % rng.choice(FLOATS), "c": "c:%x" % rng.choice([0, 0x41, 0xff]),
+                   "s": "s:%s" % hexs(rand_string(rng)[:40]), "k": "k:%s" % hexs([rng.choice(b"abcxyz") for _ in range(rng.randrange(1, 6))])}[k]
+            var = (hexs([rng.choice(b"varname_") for _ in range(rng.randrange(1, 7))]), "%d:%s" % (next_vid[0], val))
+        flag = (1 if a in notify else 0) | (2 if a in waitfor else 0) | (4 if var else 0)
+        leaves = ["P u8 %x" % flag]
+        ann = []
+        for key, table in (("n", notify), ("w", waitfor)):
+            if a in table:
+                leaves += ["P u32 1", "P u32 1", "P u32 1", "P u16 0", "P u8 1", "S " + hx, "P u32 %x" % len(table[a])] + ["Q s %d" % b for b in table[a]]
+                ann.append("%s:%s:%s" % (key, hx, ",".join(str(b) for b in table[a])))
+        if var:
+            leaves += ["P u32 1", "P u32 1", "P u32 1", "P u16 0", "V %s %s" % var]
+            ann.append("v:" + var[0])
+        out[a] = (leaves, "@ %d %s" % (len(leaves), " ".join(ann)))
+    return out
+
+
 def finish_refcounts(ops, occ):
     """refCount of a holder = the references the host holds - 1; the harness keeps one extra reference per holder"""
     import re as _re
@@ -364,14 +409,17 @@ class C10(vlib.HistoryProp):
                 "strings are read into fresh (empty) str destinations: a stored length 0 leaves the destination untouched, which then reads as the empty string",
                 "strings are arbitrary byte strings (NUL allowed anywhere; built with str::assign(ptr, len), compared by length + bytes); the header magic and archive name are C strings (version_info_t holds const char*); bool values are 0 or 1; values fit their C++ type",
                 "objects are flat: the Archive() body of a host object is a list of primitive/string/raw/pointer/position/script-variable calls, not another ArchiveObject",
-                "host classes: three Class subclasses and one Listener subclass (Listener::Archive of a listener without notify/wait/variable/end lists writes one zero flag byte)",
+                "host classes: three Class subclasses and one Listener subclass. Listener::Archive (flag byte, notify / wait-for / variable lists) is NOT modelled in Coq: the records it writes are named by the item "
+                "list as the first leaves of the listener's body and laid out by props/C10.py (one registration name per case, at most one variable per listener: every set has tableLength 1; the end list has no public API "
+                "and is not reached); bytes are compared exactly, the loaded lists through RegisterSize / WaitingSize / the variable's value and Unregister(name, other) emptying both sides",
                 "script variables: every kind of variableType_e; array keys are integers and C strings (the archive order of an array is the order of its hash table: the generator "
                 "simulates con::set insertion/rehash to predict tableLength, threshold, tableLengthIndex and the entry order; a wrong prediction shows as a byte mismatch, never as a missed one); "
                 "arrays keyed by listeners hash by address and are only probed for what is read back; Ref and ScriptPointer variables only at top level (copying such a variable into an "
                 "array does not copy the pointer); cycles of arrays only as an array that directly contains itself; the harness keeps one extra reference to every holder (refCount = references - 1)",
                 "dictionary strings (ConstString, variable keys) are non-empty C strings; the hash table that con::set::Archive rebuilds on loading is abstracted to the ordered list of entries "
                 "(the harness additionally checks that every entry read back is found by find())",
-                "an object is loaded either into storage the host owns (ArchiveObject(obj)) or by arc.ReadObject<T>() (the Archiver creates the instance): the model's reader is the same for both - "
+                "an object is loaded into storage the host owns (ArchiveObject(obj)), by arc.ReadObject<T>() or by the untyped arc.ReadObject() (class created from the archived name; used for class VObj only, where no "
+                "single damaged name byte gives another registered class, so that 'the name resolves to the expected class' is the same test): the model's reader is the same for all three - "
                 "ReadObject<T>() is createInstance() + ArchiveObject(*instance) - who owns the memory is watched by AddressSanitizer; the plain/weak pointers of an object's body are members of the host object",
                 "one host object per identity; pointer identity on the reading side = identity of the reader's object created for the same identity; the archive is smaller than 2 GiB"]
 
@@ -400,8 +448,13 @@ class C10(vlib.HistoryProp):
             if kind == "B":
                 nb = rng.choice([0, 0, 1, 2, 3, 5, 8, 10])
                 body = [rand_leaf(rng, ids, i) for _ in range(nb)]
+                if cls[i] == 2:
+                    body = ["P u8 0"] + body          # a listener without lists: Listener::Archive writes the flag byte 0
                 # N: the reader loads this object with arc.ReadObject<T>() (only objects that are archived once)
                 letter = "N" if rng.random() < 0.35 and sum(1 for e in events if e == ("B", i)) == 1 else "B"
+                # U: loaded with the untyped arc.ReadObject(); only class VObj: no single damaged byte turns "VObj" into another class name
+                if letter == "N" and cls[i] == 3 and rng.random() < 0.7:
+                    letter = "U"
                 ops.append("%s %d %d [ %s ]" % (letter, cls[i], i, " ; ".join(body)) if body else "%s %d %d [ ]" % (letter, cls[i], i))
             elif kind == "O":
                 ops.append("O %d" % i)
@@ -444,6 +497,8 @@ class C10(vlib.HistoryProp):
             key = rng.choice(["*", "*", "*", "~", hexs([rng.choice(b"keyname_01") for _ in range(rng.randrange(1, 8))])])
             return "V %s %s" % (key, " ".join(toks))
 
+        lis_items = [v for kind, v in events if kind == "B"]
+        sections = listener_sections(rng, lis_items, [rng.choice(b"waittill_evt") for _ in range(rng.randrange(1, 9))], [gen.next_vid + 50000]) if lis_items and rng.random() < 0.7 else {}
         i = 0
         while i < len(events):
             kind, v = events[i]
@@ -456,7 +511,8 @@ class C10(vlib.HistoryProp):
                 if rng.random() < 0.5:
                     body.append("Q s %d" % v)
                 letter = rng.choice("BBN")
-                ops.append("%s 2 %d [ %s ]" % (letter, v, " ; ".join(body)) if body else "%s 2 %d [ ]" % (letter, v))
+                pre, ann = sections.get(v, (["P u8 0"], ""))
+                ops.append(("%s 2 %d [ %s ] %s" % (letter, v, " ; ".join(pre + body), ann)).rstrip())
             elif kind == "O":
                 ops.append("O %d" % v)
             elif kind == "V":
@@ -476,7 +532,7 @@ class C10(vlib.HistoryProp):
              "B 2 3 [ Q p 2 ; Q s 3 ]", "B 3 4 [ S - ; Q p 4 ]", "O 1", "O 2", "O 5", "S -", "S 61", "S 00", "S 0061", "S 6100", "S 610062", "P u8 ff", "R -", "R 00",
              "P bo 1", "P u32 fff6040e", "B 1 6 [ S 00 ; Q p 6 ]",
              "V * 1000:i:7", "V 6b 1001:s:0041", "V * 1002:L:3", "V * 1003:R:1000", "V ~ 1004:k:6162",
-             "N 1 7 [ Q p 1 ; Q s 7 ; Q p 8 ]", "N 2 8 [ Q s 7 ]"]
+             "N 1 7 [ Q p 1 ; Q s 7 ; Q p 8 ]", "N 2 8 [ Q s 7 ]", "U 3 9 [ Q p 9 ; Q s 1 ; P u8 5 ]"]
 
     def gen(self, tier, seed):
         rng = random.Random(seed)
@@ -527,6 +583,8 @@ class C10(vlib.HistoryProp):
                 else:
                     cases.append(self.prim_case(rng, "r%d" % k, rng.randrange(1, ncalls + 1)))
                 k += 1
+        for c in cases:
+            c.ops = [fix_listeners(o) for o in c.ops]
         return cases
 
     def canon_model(self, lines):
@@ -548,7 +606,7 @@ class C10(vlib.HistoryProp):
 
     def nontrivial(self, case, compared):
         ops = case.ops
-        objs = [o for o in ops if o.startswith("B ") or o.startswith("N ")]
+        objs = [o for o in ops if o[:2] in ("B ", "N ", "U ")]
         ptrs = [o for o in ops if "Q " in o and not o.endswith(" n")]
         shared = [o for o in ops if ":h:" in o]
         return (len(ops) >= 3 and bool(objs) and bool(ptrs)) or bool(shared)
@@ -578,7 +636,8 @@ def probe_listener_keys(res, seed):
     """arrays keyed by listeners are written in an order that depends on addresses, so they cannot be compared byte for byte and are
     not part of the generated cases; this probe only looks at what is read back"""
     exe = vlib.build_harness("C10", HP.harness_sources, HP.variant, HP.use_lib)
-    rc, out, err = vlib.sh([exe], inp=LISTENER_KEY_CASE, env=vlib.ASAN_ENV, timeout=120)
+    text = "\n".join(fix_listeners(l) for l in LISTENER_KEY_CASE.splitlines()) + "\n"
+    rc, out, err = vlib.sh([exe], inp=text, env=vlib.ASAN_ENV, timeout=120)
     m = [l for l in out.splitlines() if l.startswith("m V ")]
     res.cov["evaluations"] += 1
     sig = "C10:listener-keyed-array-entry-lost-after-load"
@@ -598,7 +657,7 @@ def probe_listener_keys(res, seed):
 
 def check(res, tier, seed):
     res.cov["rule"] += ("corpus first; every primitive kind x boundary values (0, 1, max, sign bit, NaN/inf/denormal bit patterns, the bytes of the null-pointer marker); "
-                        "empty archives under 6 header/version/name settings; every sequence up to length 2 (quick) / 3 (thorough) over a 32-letter alphabet of "
+                        "empty archives under 6 header/version/name settings; every sequence up to length 2 (quick) / 3 (thorough) over a 33-letter alphabet of "
                         "pointers (plain/weak, null, forward, backward, self, dangling), objects of 4 host classes with pointer bodies, positions, empty and 1-byte strings/raw; "
                         "seeded random object graphs (<= 30 objects, <= 200 calls, pointers before and after their targets, objects archived twice / positioned / left out), "
                         "seeded random script variables of all 14 kinds among listeners/containers (arrays with 0..18 integer/string keys, nested to depth 3, shared between variables, containing themselves, "
